@@ -535,6 +535,10 @@ def run_inner(args):
             first_ok = np.linalg.norm(P.M @ y0 - val[0] * y0) <= 1e-6 * sc * np.linalg.norm(y0) and abs(val[0].real - wr[0].real) <= 1e-6 * sc if which in ('SR', 'LR') else True
             if first_ok:
                 what = 'KF-lanczos-orthogonality ' + what
+        elif spans and not exact and not P.hermitian and m == reach and len(resid) > 1 and min(resid[:-1]) < 1e-3 * sc0:
+            # Arnoldi with ONE pass of classical Gram-Schmidt: after a near-breakdown (here: the exact recursion has a residual below 1e-3 ||F|| at some inner step, e.g. a start
+            # vector close to an invariant subspace) the next basis vector is amplified rounding noise, orthogonality is lost and the Ritz pairs are wrong
+            what = 'KF-arnoldi-orthogonality ' + what + ' min inner residual %.1e' % min(resid[:-1])
         out_events.append({'op': 'eigs', 'what': what, 'k': kk if len(Y) < k else k, 'returned': len(Y), 'm': int(m), 'ncv': ncv, 'reach': int(reach), 'spans': spans, 'hermitian': P.hermitian,
                            'exact': bool(exact), 'bounds': bool(bounds), 'verdicts': verd})
     # ---------------- lin_solver ----------------
@@ -635,6 +639,8 @@ def main(tier, seed, replay=None):
                 sig = 'eigs:undetected-breakdown-continues-with-noise:' + e['what']
             elif e['what'].startswith('KF-lanczos-orthogonality'):
                 sig = 'eigs:lanczos-long-recursion-loses-orthogonality:' + e['what']
+            elif e['what'].startswith('KF-arnoldi-orthogonality'):
+                sig = 'eigs:arnoldi-loses-orthogonality-after-near-breakdown:' + e['what']
             rep.violation(sig, '%s (%s): %s' % (e['op'], e['what'], why[:700]), {'op': e['op'], 'what': e['what'], 'event': e})
     if any((not a) and not rj for a, rj in zip(acc, validate_traces.last_rejects)):
         raise Machinery('C18 trace neither accepted nor rejected')
